@@ -136,6 +136,14 @@ CHECKS["C10"] = (
     "DESIGN.md section 4, C10",
 )
 
+CHECKS["C11"] = (
+    "E1-explicit-state",
+    "explicit-state BFS per dependency graph over read / override / delete / mutate histories on the real classes, lock-step reference of source values and override validity",
+    "15 dependency graphs over <= 4 nodes (managed sources with and without default, unmanaged source, list source, cached spec_property, uncached spec_property(invalidated_by), non-overridable cached property, Attr(invalidated_by), managed annotated property; single edge, chains of 2 and 3 incl. through an uncached or attribute intermediate, diamond, '*', dependant added in a subclass, cache filled in __post_init__). BFS (depth 4 quick / 6 thorough, state = reference state x instance fingerprint) over {read, override, delete of every derived value; setattr, delattr, with_, transform_, reset_<attr>, update, transform, element helper - in place and copy-on-write - plus ill-typed (failing) mutations of every source; reset; deepcopy}. After every transition all derived values are read on a replayed twin and must equal the reference getters on current source values (or the override assigned since the last change of a transitive dependency), failed mutations must leave the instance untouched, caches must survive re-reads, and the receiver of a copy-on-write call must stay consistent.",
+    "Trusts the reference Ref in props/c11.py; invalidation is taken to drop user overrides of dependants as well; depth-bounded.",
+    "DESIGN.md section 4, C11",
+)
+
 ENGINES = [
     {"name": "E1-explicit-state", "path": "mc/common.py, props/*.py (explore)", "serves_properties": [],
      "kind_free_text": "breadth-first explicit-state search over the real transition function; a state is the shortest operation history that reaches it, rebuilt by replay; canonical-form deduplication; lock-step reference model"},
